@@ -162,6 +162,22 @@ pub fn eval(c: &Case) -> (Vec<(String, String)>, String) {
             fails.push((format!("C11/positioned-environment/{ctor}"), "environment not passed through".into()));
         }
     }
+    // a second robot in the same thread: same number of environment objects, each moved by 0.6 m (no environment: the other
+    // safety setting). Queries on it are interleaved with the queries on the robot under test; nothing it is asked may
+    // change what the robot under test answers (no state shared between instances)
+    let other = {
+        let mut oc = cell.clone();
+        if oc.envs.is_empty() {
+            oc.safety = if c.safety == 0 { SafetyDesc { to_env: 0.03, to_robot: 0.03, special: vec![], mode: 0 } } else { SafetyDesc::touch(0) };
+        }
+        for e in oc.envs.iter_mut() {
+            e.pose = Iso::trans(0.0, 0.6, 0.0).mul(&e.pose);
+        }
+        let mut c2 = c.clone();
+        c2.ctor = 2;
+        build(&c2, &oc)
+    };
+    let mut interference_differs = false;
     // the four inverse entry points = ordered filter of the underlying stack's answers
     let pose = to_na(&want);
     let mut prev_near = *q;
@@ -182,6 +198,13 @@ pub fn eval(c: &Case) -> (Vec<(String, String)>, String) {
                 continue;
             }
         };
+        // the other robot is asked about the very vector the robot under test will check first
+        if let Some(first) = all.first() {
+            let theirs = other.collides(first);
+            if theirs != !robot.collision_details(first).is_empty() {
+                interference_differs = true;
+            }
+        }
         let got = match call(&robot, entry, &pose, &prev, 0.4) {
             Ok(s) => s,
             Err(m) => {
@@ -189,7 +212,11 @@ pub fn eval(c: &Case) -> (Vec<(String, String)>, String) {
                 continue;
             }
         };
-        let want: Vec<Joints> = all.iter().filter(|s| !robot.collides(s)).cloned().collect();
+        // verdicts through collision_details (a different entry point than the filter itself uses), the last one asked first
+        let want: Vec<Joints> = {
+            let keep: Vec<bool> = all.iter().rev().map(|s| robot.collision_details(s).is_empty()).collect();
+            all.iter().zip(keep.into_iter().rev()).filter(|(_, k)| *k).map(|(s, _)| *s).collect()
+        };
         let same = got.len() == want.len() && got.iter().zip(want.iter()).all(|(a, b)| (0..6).all(|i| a[i].to_bits() == b[i].to_bits()));
         if !same {
             let as_set_equal = got.len() == want.len() && got.iter().all(|g| want.iter().any(|w| w == g));
@@ -202,7 +229,7 @@ pub fn eval(c: &Case) -> (Vec<(String, String)>, String) {
             kept_sig = format!("kept{}of{}", want.len(), all.len());
         }
     }
-    (fails, format!("{ctor}:{kept_sig}"))
+    (fails, format!("{ctor}:{kept_sig}{}", if interference_differs { ":other-robot-disagrees" } else { "" }))
 }
 
 fn case_json(c: &Case) -> Value {
@@ -237,17 +264,20 @@ pub fn run(ctx: &Ctx) -> Report {
     });
     let partial = rep.signatures.iter().any(|s| {
         s.split("kept").nth(1).and_then(|t| {
-            let mut it = t.split("of");
+            let mut it = t.split(':').next().unwrap_or("").split("of");
             Some((it.next()?.parse::<usize>().ok()?, it.next()?.parse::<usize>().ok()?))
         }).map_or(false, |(k, n)| k > 0 && k < n)
     });
+    if !rep.signatures.iter().any(|s| s.ends_with("other-robot-disagrees")) && rep.fails.is_empty() {
+        rep.machinery_errors.push("the interleaved second robot never judged a vector differently from the robot under test".into());
+    }
     if !partial && rep.fails.is_empty() {
         rep.machinery_errors.push("no case where collisions removed some but not all answers".into());
     }
     rep.traces_validated = rep.transitions;
     rep.rule = "constructors {new(first only), new(all), with_safety} x base/tool isometries {identity, shifted, rotated} x environments {free, near, blocking \
                 slab/wall/cage, ...} x safety {touch, 3 cm} x limits {wide, window+weight with off-zero centres, window with hand-set centres/tolerances} x postures x four inverse entry points x previous {near the solution, CONSTRAINT_CENTERED, far out}; oracle (differential): answers \
-                == ordered filter of the underlying stack's answers by !collides, bit-equal; forward, link poses, singularity bit-equal to the underlying stack (tool over base over the limited robot, built independently from the same pieces); \
+                == ordered filter of the underlying stack's answers by an empty collision_details, bit-equal, while a second robot (same environment size, obstacles moved / other safety) is asked about the first candidate just before each call; forward, link poses, singularity bit-equal to the underlying stack (tool over base over the limited robot, built independently from the same pieces); \
                 stack == base*FK_ref*tool with the given limits; positioned_robot == link poses cast to f32, tool on link 6, environment passed through; \
                 signature = (constructor, kept k of n)".into();
     rep.set("axes", json!({"constructors": 3, "frames": 3, "layouts": layouts.len(), "safety": 2, "limits": 3, "postures": qs.len()}));
